@@ -35,12 +35,14 @@ func C06(c *Ctx) {
 	r.Rule("C06-h", "a memo entry that is found is the answer: in parseExprWrap and parseRuleMemoize every path on which the lookup succeeded returns without evaluating, and every path that evaluates after a lookup assumes exactly that the lookup missed - no further condition decides whether a hit is used (a hit ignored under some condition re-evaluates the expression at that offset every time: the bound of one evaluation per expression and offset is lost)")
 	r.Rule("C06-w", "configuration flags are assigned only by their option function (and newParser defaults): memoize, debug, recover, allowInvalidUTF8, maxExprCnt, entrypoint")
 
+	r.Rule("C06-m", "what a parse records or decides reads the rule stack at its top only (the rule whose expression is being evaluated, which the node determines): the other entries are the call path, which an answer from the memo table does not reproduce - an error prefix or a statistics key built from enclosing rules differs between a first evaluation and its replay")
 	r.Rule("C06-l", "a memo entry does not outlive the errors of its evaluation: where the error list is cut back to a snapshot the entries made since are invalidated (C11-i under this property, finding F28) - otherwise Memoize(true) loses code-block errors of rules evaluated inside a discarded growth attempt")
 	abs := c.allAbs()
 	r.Min("semantic variants analysed", 16, len(abs))
 	n := 0
 	for _, a := range abs {
 		c06w(c, a.V)
+		c06RuleStackTopOnly(c, a.V)
 		rolledBackErrorsVsMemo(c, a.V, "C06-l")
 		if a.V.Params.Optimize {
 			// debug / memoize / statistics code must be absent
@@ -1051,4 +1053,96 @@ func c06j(c *Ctx, v *variants.Variant) {
 	r.Check(len(bad) == 0 && nEval >= 15, "C06-j", "T:evaluators-branch-on-node-position-and-configuration-only", v.Name, "builder/static_code.go",
 		fmt.Sprintf("%d evaluators, %d parser fields read in branch conditions: configuration, position, budget or handler stack", nEval, nReads),
 		strings.Join(uniq(bad), "; ")+": the outcome of an evaluation then depends on where it was started from, but the memo table answers by (node, offset) - with Memoize(true) a result computed in one context is replayed in another")
+}
+
+// c06RuleStackTopOnly (C06-m): every read of p.rstack is len(p.rstack), p.rstack[len(p.rstack)-1] (also through a
+// local defined once as len(p.rstack) or len(p.rstack)-1), the append that pushes or the reslice that pops; a plain
+// function that is handed the stack is held to the same for its parameter.
+func c06RuleStackTopOnly(c *Ctx, v *variants.Variant) {
+	r := c.R
+	var bad []string
+	n := 0
+	var check func(fd *ast.FuncDecl, S string, depth int)
+	check = func(fd *ast.FuncDecl, S string, depth int) {
+		topLocals := map[string]bool{}
+		lenLocals := map[string]bool{}
+		defs := map[string]int{}
+		ast.Inspect(fd.Body, func(nd ast.Node) bool {
+			if as, ok := nd.(*ast.AssignStmt); ok && len(as.Lhs) == len(as.Rhs) {
+				for k, l := range as.Lhs {
+					if id, ok := l.(*ast.Ident); ok {
+						defs[id.Name]++
+						switch nospace(as.Rhs[k]) {
+						case "len(" + S + ")-1":
+							topLocals[id.Name] = true
+						case "len(" + S + ")":
+							lenLocals[id.Name] = true
+						}
+					}
+				}
+			}
+			return true
+		})
+		isTop := func(ix string) bool {
+			if ix == "len("+S+")-1" || topLocals[ix] && defs[ix] == 1 {
+				return true
+			}
+			nm := strings.TrimSuffix(ix, "-1")
+			return nm != ix && lenLocals[nm] && defs[nm] == 1
+		}
+		var stack []ast.Node
+		ast.Inspect(fd.Body, func(nd ast.Node) bool {
+			if nd == nil {
+				stack = stack[:len(stack)-1]
+				return true
+			}
+			stack = append(stack, nd)
+			e, ok := nd.(ast.Expr)
+			if !ok || nospace(e) != S || len(stack) < 2 {
+				return true
+			}
+			if _, isSel := stack[len(stack)-2].(*ast.SelectorExpr); isSel && strings.Contains(S, ".") {
+				return true // the identifier inside the selector itself
+			}
+			n++
+			okUse := false
+			switch par := stack[len(stack)-2].(type) {
+			case *ast.CallExpr:
+				fn := callName(par)
+				okUse = fn == "len" || fn == "append" && len(par.Args) == 2 && par.Args[0] == e
+				if !okUse && depth < 2 {
+					// handed to a plain function of the runtime: its parameter is the stack there
+					if id, isId := par.Fun.(*ast.Ident); isId {
+						if callee := v.Func("", id.Name); callee != nil && callee.Body != nil {
+							for k, a := range par.Args {
+								if a != e {
+									continue
+								}
+								if pn := paramNames(callee); k < len(pn) {
+									check(callee, pn[k], depth+1)
+									okUse = true
+								}
+							}
+						}
+					}
+				}
+			case *ast.IndexExpr:
+				okUse = par.X == e && isTop(nospace(par.Index))
+			case *ast.SliceExpr:
+				okUse = par.X == e && par.Low == nil && par.High != nil && isTop(nospace(par.High))
+			case *ast.AssignStmt:
+				okUse = len(par.Lhs) == 1 && par.Lhs[0] == e
+			}
+			if !okUse {
+				bad = append(bad, fmt.Sprintf("%s: %s reads the rule stack other than at its top (%T)", v.Where(e.Pos()), fd.Name.Name, stack[len(stack)-2]))
+			}
+			return true
+		})
+	}
+	for _, fd := range v.Funcs() {
+		if fd.Body != nil {
+			check(fd, "p.rstack", 0)
+		}
+	}
+	r.Check(len(bad) == 0 && n >= 4, "C06-m", "T.rstack:read-at-the-top-only", v.Name, "builder/static_code.go", fmt.Sprintf("%d uses of p.rstack: length, top element, push, pop", n), strings.Join(uniq(bad), "; ")+": the entries below the top are the call path of this evaluation; a memo hit replays the result without them, so what was derived from them (an error prefix naming an enclosing rule) differs between Memoize on and off")
 }
